@@ -52,12 +52,16 @@ func Run(c *core.Ctx) core.FinishOpts {
 	if only == "" || strings.HasPrefix(only, "cli-") {
 		cliLeg(c, only)
 	}
+	floor := c.Pick(6000, 100000)
+	if only != "" {
+		floor = 0 // a single replayed case
+	}
 	return core.FinishOpts{
 		Level: "exploration",
 		Rule: "fn: every function descriptor x seeded argument tuples from edge pools per (signature, nullability variant), non-trivial = a result value was produced and judged, distinct by (signature, variant, argument row); " +
 			"q: seeded queries from a typed grammar over 22 shapes on seeded conforming tables, non-trivial = at least one output record judged, distinct by (case, sql); " +
 			"cli: seeded queries over fixed JSON/CSV files, non-trivial = at least one output row compared with the described types",
-		Floor:       c.Pick(6000, 100000),
+		Floor:       floor,
 		Assumptions: []string{"oracle: own Matches(value, type) (structural recursion, no use of Type.Is / Value.Type)", "memdb tables conform to their declared schemas (generated from the declared type)", "pipeline wiring copied in shape from cmd/root.go (nodeh.Plan)", "known-finding attribution at query level re-plans the same query with only the named descriptors' output types changed", "Go toolchain"},
 	}
 }
